@@ -321,6 +321,35 @@ package vm
 //@   loop OpMethod invariant[i] i >= -1
 //@   loop OpMethodNilSafe invariant[i] i >= -1
 //@   loop OpArray invariant[i] i >= -1
+// these instructions fail exactly where their helper or an operand assertion fails: no panic statement of the
+// interpreter loop itself is reachable in their cases (C01, C14: e.g. only integer division by zero is an error)
+//@   case OpEqual: no-explicit-panic
+//@   case OpEqualInt: no-explicit-panic
+//@   case OpEqualString: no-explicit-panic
+//@   case OpLess: no-explicit-panic
+//@   case OpMore: no-explicit-panic
+//@   case OpLessOrEqual: no-explicit-panic
+//@   case OpMoreOrEqual: no-explicit-panic
+//@   case OpAdd: no-explicit-panic
+//@   case OpSubtract: no-explicit-panic
+//@   case OpMultiply: no-explicit-panic
+//@   case OpDivide: no-explicit-panic
+//@   case OpModulo: no-explicit-panic
+//@   case OpExponent: no-explicit-panic
+//@   case OpNegate: no-explicit-panic
+//@   case OpNot: no-explicit-panic
+//@   case OpIn: no-explicit-panic
+//@   case OpIndex: no-explicit-panic
+//@   case OpSlice: no-explicit-panic
+//@   case OpLen: no-explicit-panic
+//@   case OpFetch: no-explicit-panic
+//@   case OpFetchNilSafe: no-explicit-panic
+//@   case OpFetchMap: no-explicit-panic
+//@   case OpProperty: no-explicit-panic
+//@   case OpPropertyNilSafe: no-explicit-panic
+//@   case OpContains: no-explicit-panic
+//@   case OpStartsWith: no-explicit-panic
+//@   case OpEndsWith: no-explicit-panic
 // jumps: the operand is the little-endian 16-bit value in the two bytes after the opcode
 //@   case OpJump: ensures[ip] vm.ip == head(vm.ip) + 3 + int(vm.bytecode[head(vm.ip)+1]) + 256*int(vm.bytecode[head(vm.ip)+2])
 //@   case OpJumpBackward: ensures[ip] vm.ip == head(vm.ip) + 3 - (int(vm.bytecode[head(vm.ip)+1]) + 256*int(vm.bytecode[head(vm.ip)+2]))
